@@ -1,1 +1,364 @@
-/-! Property theorems for C17 (not built yet). -/
+import Cellml.C17.Lift
+import Cellml.Props.C01
+import Cellml.Props.C03
+
+/-! # C17 — broken or unsupported documents are refused, never half-loaded
+
+    Two loaders are spoken about:
+    * `Load.load : Doc → Except Err Flat` — the model of `Parser.parse` after the unit definitions have been sorted (C01);
+    * `C17.loadFull : FaultDoc → Except Err Flat` — the whole of `Parser.parse` on a document as written: the two schema
+      facts about variables, component units, the unit work list `_add_units` (C03), reactions, components, variables,
+      encapsulation, connections (direction + work list), maths including left-hand sides `add_equation` refuses,
+      `transform_constants`.
+    Every fault class is a predicate that is EXISTENTIAL over the sites of the document ("somewhere there is …"); the rest
+    of the document is arbitrary. So each `fault_rejected_*` covers the fault at any site, alone or together with any
+    other faults. RELAX NG validation and XML well-formedness are lxml's and are covered by the fault stream of the
+    harness only (unknown elements, missing attributes, wrong namespace, malformed text). -/
+
+open Load C17
+namespace Cellml.Props.C17
+
+/-! ## 1. Both work lists terminate; loading is a total function -/
+
+/-- `load_model` cannot hang, on any input, valid or not: `loadFull` is a total function defined without fuel — its
+    two loops (`Units.loop`, `Load.connectLoop`) are well-founded recursions that Lean accepted, on the measure
+    `(|deque|, |deque| + 1 − unsuccessful iterations in a row)` — so it returns a model or an error. -/
+theorem load_total (fd : FaultDoc) : (∃ F, loadFull fd = .ok F) ∨ (∃ e, loadFull fd = .error e) := by
+  cases h : loadFull fd with
+  | ok F => exact Or.inl ⟨F, rfl⟩
+  | error e => exact Or.inr ⟨e, rfl⟩
+
+theorem load_total_sorted (doc : Doc) : (∃ F, Load.load doc = .ok F) ∨ (∃ e, Load.load doc = .error e) := by
+  cases h : Load.load doc with
+  | ok F => exact Or.inl ⟨F, rfl⟩
+  | error e => exact Or.inr ⟨e, rfl⟩
+
+/-- the connection work list (restated from C01) -/
+theorem connect_terminates (reg : Registry) (vt : VarTable) (l : List (VRef × VRef)) :
+    (∃ st, connect reg vt l = .ok st) ∨ (∃ e, connect reg vt l = .error e) :=
+  Cellml.Props.C01.connect_terminates reg vt l
+
+/-- … with a bound: the loop with an explicit budget of `stepBound n 0` iterations, `n` the number of
+    `<map_variables>`, never runs out of budget and returns what the loop returns -/
+theorem connect_within_budget (reg : Registry) (vt : VarTable) (l : List (VRef × VRef)) :
+    connectLoopF reg vt (stepBound l.length 0) l 0 (initState vt) = some (connect reg vt l) :=
+  connectLoopF_eq _ reg vt l 0 (Nat.zero_le _) (initState vt) (Nat.le_refl _)
+
+/-- … which is `n(n+1)/2 + n + 2` -/
+theorem connect_budget (n : Nat) : 2 * stepBound n 0 = n * (n + 1) + 2 * n + 4 := by
+  simp only [stepBound, Nat.sub_zero, Nat.mul_add, tri_double]
+  omega
+
+/-- the unit work list (restated from C03): it agrees with the loop that stops after `stepBound` passes -/
+theorem units_worklist_terminates (defs : List Units.UDef) :
+    Units.addUnitsFuel 0 defs = some (Units.addUnits 0 defs) :=
+  Cellml.Props.C03.worklist_terminates 0 defs
+
+/-! ## 2. One theorem per fault class: the class anywhere in the document ⇒ an exception
+
+    `…` about `Load.load`, `…_full` about `loadFull` (the class predicate on `fd.doc`, everything else in `fd`
+    arbitrary — in particular any other fault). -/
+
+theorem fault_rejected_missing_component (doc : Doc) (h : MissingComponent doc) : ∃ e, Load.load doc = .error e :=
+  load_isErr_of_loadFrom (fun _ _ _ => missing_component_rejected h)
+theorem fault_rejected_missing_component_full (fd : FaultDoc) (h : MissingComponent fd.doc) :
+    ∃ e, loadFull fd = .error e := loadFull_isErr_of_loadFrom (fun _ _ _ => missing_component_rejected h)
+
+theorem fault_rejected_missing_variable (doc : Doc) (h : MissingVariable doc) : ∃ e, Load.load doc = .error e :=
+  load_isErr_of_loadFrom (fun _ _ _ => missing_variable_rejected h)
+theorem fault_rejected_missing_variable_full (fd : FaultDoc) (h : MissingVariable fd.doc) :
+    ∃ e, loadFull fd = .error e := loadFull_isErr_of_loadFrom (fun _ _ _ => missing_variable_rejected h)
+
+/-- both ends sources: `out` facing `out` (siblings: both `public_interface="out"`; parent and child: the parent's
+    private and the child's public interface both `out`) -/
+theorem fault_rejected_both_sources (doc : Doc) (h : BothSources doc) : ∃ e, Load.load doc = .error e :=
+  load_isErr_of_loadFrom (fun _ _ _ => both_sources_rejected h)
+theorem fault_rejected_both_sources_full (fd : FaultDoc) (h : BothSources fd.doc) : ∃ e, loadFull fd = .error e :=
+  loadFull_isErr_of_loadFrom (fun _ _ _ => both_sources_rejected h)
+
+/-- both ends receivers: `in` facing `in` -/
+theorem fault_rejected_both_receivers (doc : Doc) (h : BothReceivers doc) : ∃ e, Load.load doc = .error e :=
+  load_isErr_of_loadFrom (fun _ _ _ => both_receivers_rejected h)
+theorem fault_rejected_both_receivers_full (fd : FaultDoc) (h : BothReceivers fd.doc) : ∃ e, loadFull fd = .error e :=
+  loadFull_isErr_of_loadFrom (fun _ _ _ => both_receivers_rejected h)
+
+/-- no direction: one of the facing interfaces is `none` (or absent) -/
+theorem fault_rejected_no_direction (doc : Doc) (h : NoDirection doc) : ∃ e, Load.load doc = .error e :=
+  load_isErr_of_loadFrom (fun _ _ _ => no_direction_rejected h)
+theorem fault_rejected_no_direction_full (fd : FaultDoc) (h : NoDirection fd.doc) : ∃ e, loadFull fd = .error e :=
+  loadFull_isErr_of_loadFrom (fun _ _ _ => no_direction_rejected h)
+
+/-- a connection between components that are neither siblings nor parent and child -/
+theorem fault_rejected_non_adjacent (doc : Doc) (h : NonAdjacent doc) : ∃ e, Load.load doc = .error e :=
+  load_isErr_of_loadFrom (fun _ _ _ => non_adjacent_rejected h)
+theorem fault_rejected_non_adjacent_full (fd : FaultDoc) (h : NonAdjacent fd.doc) : ∃ e, loadFull fd = .error e :=
+  loadFull_isErr_of_loadFrom (fun _ _ _ => non_adjacent_rejected h)
+
+/-- incompatible units across a connection (relative to the units the document defines) -/
+theorem fault_rejected_incompatible_units (doc : Doc)
+    (h : ∀ reg ust, buildUnits doc.units (Units.builtinRegistry, { id := 0, known := [] }) = .ok (reg, ust) →
+      IncompatibleUnits reg ust doc) : ∃ e, Load.load doc = .error e :=
+  load_isErr_of_loadFrom (fun reg ust hb => incompatible_units_rejected (h reg ust hb))
+theorem fault_rejected_incompatible_units_full (fd : FaultDoc)
+    (h : ∀ reg ust, Units.addUnits 0 fd.udefs = .ok (reg, ust) → IncompatibleUnits reg ust fd.doc) :
+    ∃ e, loadFull fd = .error e :=
+  loadFull_isErr_of_loadFrom (fun reg ust hb => incompatible_units_rejected (h reg ust hb))
+
+/-- a target with two sources: two `<map_variables>` directed into one variable (also the same one written twice) -/
+theorem fault_rejected_two_sources (doc : Doc)
+    (h : ∀ reg ust, buildUnits doc.units (Units.builtinRegistry, { id := 0, known := [] }) = .ok (reg, ust) →
+      TwoSources ust doc) : ∃ e, Load.load doc = .error e :=
+  load_isErr_of_loadFrom (fun reg ust hb => two_sources_rejected (h reg ust hb))
+theorem fault_rejected_two_sources_full (fd : FaultDoc)
+    (h : ∀ reg ust, Units.addUnits 0 fd.udefs = .ok (reg, ust) → TwoSources ust fd.doc) :
+    ∃ e, loadFull fd = .error e :=
+  loadFull_isErr_of_loadFrom (fun reg ust hb => two_sources_rejected (h reg ust hb))
+
+/-- (outside the property's list) a relay nothing feeds: the work list gets stuck and the `assert` fires -/
+theorem fault_rejected_unfed_relay (doc : Doc)
+    (h : ∀ reg ust, buildUnits doc.units (Units.builtinRegistry, { id := 0, known := [] }) = .ok (reg, ust) →
+      UnfedRelay ust doc) : ∃ e, Load.load doc = .error e :=
+  load_isErr_of_loadFrom (fun reg ust hb => unfed_relay_rejected (h reg ust hb))
+
+/-- a variable defined twice directly: two equations of one component define it -/
+theorem fault_rejected_defined_twice_direct (doc : Doc) (h : DefinedTwiceDirect doc) : ∃ e, Load.load doc = .error e :=
+  load_isErr_of_loadFrom (fun _ _ _ => defined_twice_direct_rejected h)
+theorem fault_rejected_defined_twice_direct_full (fd : FaultDoc) (h : DefinedTwiceDirect fd.doc) :
+    ∃ e, loadFull fd = .error e := loadFull_isErr_of_loadFrom (fun _ _ _ => defined_twice_direct_rejected h)
+
+/-- a variable defined twice via its connection: both ends of a connection have an equation of their own -/
+theorem fault_rejected_defined_twice_connected (doc : Doc) (h : DefinedTwiceConnected doc) :
+    ∃ e, Load.load doc = .error e := load_isErr_of_loadFrom (fun _ _ _ => defined_twice_connected_rejected h)
+theorem fault_rejected_defined_twice_connected_full (fd : FaultDoc) (h : DefinedTwiceConnected fd.doc) :
+    ∃ e, loadFull fd = .error e := loadFull_isErr_of_loadFrom (fun _ _ _ => defined_twice_connected_rejected h)
+
+/-- PARTIAL (documents without ODEs): a variable with an `initial_value` and an equation `x = …` -/
+theorem fault_rejected_init_and_equation_partial (doc : Doc) (hno : NoOde doc) (h : InitAndEquation doc) :
+    ∃ e, Load.load doc = .error e := load_isErr_of_loadFrom (fun _ _ _ => init_and_equation_rejected_partial hno h)
+theorem fault_rejected_init_and_equation_full_partial (fd : FaultDoc) (hno : NoOde fd.doc) (h : InitAndEquation fd.doc) :
+    ∃ e, loadFull fd = .error e := loadFull_isErr_of_loadFrom (fun _ _ _ => init_and_equation_rejected_partial hno h)
+
+theorem fault_rejected_undefined_identifier (doc : Doc) (h : UndefinedIdentifier doc) : ∃ e, Load.load doc = .error e :=
+  load_isErr_of_loadFrom (fun _ _ _ => undefined_identifier_rejected h)
+theorem fault_rejected_undefined_identifier_full (fd : FaultDoc) (h : UndefinedIdentifier fd.doc) :
+    ∃ e, loadFull fd = .error e := loadFull_isErr_of_loadFrom (fun _ _ _ => undefined_identifier_rejected h)
+
+/-- an undefined unit: a variable or a number with a unit name that is neither built in nor defined by the document -/
+theorem fault_rejected_undefined_unit (doc : Doc) (h : UndefinedUnitName (doc.units.map UnitDecl.name) doc) :
+    ∃ e, Load.load doc = .error e :=
+  load_isErr_of_loadFrom (fun reg ust hb => undefined_unit_rejected (undefinedUnit_of_name (fun n hn => by
+    rcases buildUnits_known _ _ _ hb n hn with h' | h'
+    · simp at h'
+    · exact h') h))
+theorem fault_rejected_undefined_unit_full (fd : FaultDoc) (h : UndefinedUnitName (fd.udefs.map (·.name)) fd.doc) :
+    ∃ e, loadFull fd = .error e :=
+  loadFull_isErr_of_loadFrom (fun _ _ hb => undefined_unit_rejected (undefinedUnit_of_name (addUnits_known hb) h))
+
+theorem fault_rejected_duplicate_component (doc : Doc) (h : DuplicateComponent doc) : ∃ e, Load.load doc = .error e :=
+  load_isErr_of_loadFrom (fun _ _ _ => duplicate_component_rejected h)
+theorem fault_rejected_duplicate_component_full (fd : FaultDoc) (h : DuplicateComponent fd.doc) :
+    ∃ e, loadFull fd = .error e := loadFull_isErr_of_loadFrom (fun _ _ _ => duplicate_component_rejected h)
+
+/-! ### classes only the full loader sees -/
+
+/-- non-variable left-hand side (`x + 1 = …`, `3 = x`, `−x = …`) -/
+theorem fault_rejected_nonvariable_lhs (fd : FaultDoc) (h : NonVariableLhs fd) : ∃ e, loadFull fd = .error e :=
+  nonvariable_lhs_rejected h
+/-- second or higher derivative on the left-hand side -/
+theorem fault_rejected_higher_order_lhs (fd : FaultDoc) (h : HigherOrderLhs fd) : ∃ e, loadFull fd = .error e :=
+  higher_order_lhs_rejected h
+/-- units defined inside a component (unsupported feature) -/
+theorem fault_rejected_component_units (fd : FaultDoc) (h : HasComponentUnits fd) : ∃ e, loadFull fd = .error e :=
+  component_units_rejected h
+/-- reactions (unsupported feature) -/
+theorem fault_rejected_reaction (fd : FaultDoc) (h : HasReaction fd) : ∃ e, loadFull fd = .error e :=
+  reaction_rejected h
+/-- the two schema rules on variables that are modelled -/
+theorem fault_rejected_schema_variable (fd : FaultDoc) (h : SchemaViolation fd) : ∃ e, loadFull fd = .error e :=
+  schema_violation_rejected h
+
+/-! ### unit definitions (through the work list of C03) -/
+
+theorem fault_rejected_units_duplicate (fd : FaultDoc) (h : ¬ (fd.udefs.map (·.name)).Nodup) :
+    ∃ e, loadFull fd = .error e := loadFull_isErr_of_units (Cellml.Props.C03.reject_duplicate 0 fd.udefs h)
+
+theorem fault_rejected_units_builtin_override (fd : FaultDoc) (d : Units.UDef) (hd : d ∈ fd.udefs)
+    (h : Cellml.Gen.cellmlUnits.contains d.name = true) : ∃ e, loadFull fd = .error e :=
+  loadFull_isErr_of_units (Cellml.Props.C03.reject_builtin_override 0 fd.udefs d hd h)
+
+/-- non-zero offset (unsupported feature) -/
+theorem fault_rejected_units_offset (fd : FaultDoc) (d : Units.UDef) (hd : d ∈ fd.udefs) (hb : d.base = false)
+    (e : Units.UnitElem) (he : e ∈ d.elems) (o : String) (ho : e.offset = some o) (q : Rat)
+    (hq : Decimal.parse o = some q) (hne : q ≠ 0) : ∃ err, loadFull fd = .error err :=
+  loadFull_isErr_of_units (Cellml.Props.C03.reject_nonzero_offset 0 fd.udefs d hd hb e he o ho q hq hne)
+
+/-- dangling reference: a `<unit>` refers to a name that is neither built in nor defined -/
+theorem fault_rejected_units_dangling (fd : FaultDoc) (d : Units.UDef) (hd : d ∈ fd.udefs) (hb : d.base = false)
+    (e : Units.UnitElem) (he : e ∈ d.elems) (h1 : Cellml.Gen.cellmlUnits.contains e.units = false)
+    (h2 : e.units ∉ fd.udefs.map (·.name)) : ∃ err, loadFull fd = .error err :=
+  loadFull_isErr_of_units (Cellml.Props.C03.reject_dangling 0 fd.udefs d hd hb e he h1 h2)
+
+/-- cyclic definitions: a non-empty group of definitions each referring to a member of the group -/
+theorem fault_rejected_units_cycle (fd : FaultDoc) (cyc : List Units.UDef) (hne : cyc ≠ [])
+    (h : ∀ d ∈ cyc, d ∈ fd.udefs ∧ d.base = false ∧ ∃ e ∈ d.elems, ∃ d' ∈ cyc, e.units = d'.name) :
+    ∃ err, loadFull fd = .error err :=
+  loadFull_isErr_of_units (Cellml.Props.C03.reject_cycle 0 fd.udefs cyc hne h)
+
+/-! ## 3. Non-vacuity: a valid document is loaded by both loaders; one concrete faulty document per class
+
+    The base document is C01's relay `membrane ⊃ channel ⊃ gate` (mV → volt → mV). `variant` rebuilds it with a few
+    places left open; every faulty document below differs from it in one or two of them. -/
+
+open Cellml.Props.C01 (relayDoc relayUnits relayL relay_load)
+
+def variant (gv : VarDecl) (chanPriv : Iface) (gateEqs chanEqs : List (Eqn String String)) (conns : List Conn)
+    (names : List String := ["gate", "channel", "membrane"]) : Doc :=
+  { units := relayDoc.units
+    comps := [⟨names[0]!, [gv, ⟨"y", "mV", .none, .none, none, none⟩], gateEqs⟩,
+              ⟨names[1]!, [⟨"V", "volt", .inn, chanPriv, none, none⟩], chanEqs⟩,
+              ⟨names[2]!, [⟨"V", "mV", .none, .out, none, none⟩], [⟨.var "V", .add (.num 2 "mV") (.num (1/2) "volt")⟩]⟩]
+    encaps := relayDoc.encaps
+    conns := conns }
+
+def gateV (pub : Iface) (units : String := "mV") : VarDecl := ⟨"v", units, pub, .none, none, none⟩
+def yEq : Eqn String String := ⟨.var "y", .add (.var "v") (.num 1 "mV")⟩
+def k1 : Conn := ⟨"gate", "v", "channel", "V"⟩
+def k2 : Conn := ⟨"channel", "V", "membrane", "V"⟩
+def mVdef : Units.UDef := ⟨"mV", false, [{ units := "volt", pfx := some "milli" }]⟩
+
+example : variant (gateV .inn) .out [yEq] [] [k1, k2] = relayDoc := rfl
+
+theorem relay_buildUnits :
+    buildUnits relayDoc.units (Units.builtinRegistry, { id := 0, known := [] }) = .ok relayUnits := by decide +kernel
+
+theorem relay_addUnits : Units.addUnits 0 [mVdef] = .ok relayUnits := by
+  have h : unitsVia [mVdef] = some relayUnits := by decide +kernel
+  unfold unitsVia at h
+  rw [units_worklist_terminates] at h
+  split at h
+  · rename_i p hp
+    simp only [Option.some.injEq] at hp h
+    rw [hp, h]
+  · cases h
+
+/-- the VALID document is loaded by `loadFull` (unit work list included), to the same flat model as by `Load.load` -/
+theorem relay_loadFull : loadFull { doc := relayDoc, udefs := [mVdef] } = .ok (relayL.flat relayDoc) := by
+  rw [loadFull_clean (reg := relayUnits.1) (ust := relayUnits.2) (by decide +kernel) rfl relay_addUnits rfl rfl]
+  have := load_eq relayDoc
+  rw [relay_buildUnits] at this
+  exact this.symm.trans relay_load
+
+/-- every variant below has the same units, so the hypotheses "for the units the document defines" are about
+    `relayUnits` -/
+theorem variant_units {P : Registry → Units.Store → Prop} (h : P relayUnits.1 relayUnits.2) (reg : Registry)
+    (ust : Units.Store)
+    (hb : buildUnits relayDoc.units (Units.builtinRegistry, { id := 0, known := [] }) = .ok (reg, ust)) : P reg ust := by
+  rw [relay_buildUnits] at hb
+  simp only [Except.ok.injEq] at hb
+  rw [hb] at h; exact h
+
+/-- missing component -/
+example : ∃ e, Load.load (variant (gateV .inn) .out [yEq] [] [k1, k2, ⟨"gate", "y", "nosuchcomp", "V"⟩]) = .error e :=
+  fault_rejected_missing_component _ (by decide +kernel)
+/-- missing variable -/
+example : ∃ e, Load.load (variant (gateV .inn) .out [yEq] [] [⟨"gate", "nosuchvar", "channel", "V"⟩, k2]) = .error e :=
+  fault_rejected_missing_variable _ (by decide +kernel)
+/-- both sources: gate.v made `out`, facing channel.V's private `out` -/
+example : ∃ e, Load.load (variant (gateV .out) .out [yEq] [] [k1, k2]) = .error e :=
+  fault_rejected_both_sources _ (connHas_of_b (fun f => f == some (.out, .out)) (fun f h => by simpa using h)
+    (by decide +kernel))
+/-- both receivers: channel.V's private interface made `in`, facing gate.v's public `in` (this document also breaks
+    the schema rule "not both interfaces in": two faults, both theorems apply) -/
+example : ∃ e, Load.load (variant (gateV .inn) .inn [yEq] [] [k1, k2]) = .error e :=
+  fault_rejected_both_receivers _ (connHas_of_b (fun f => f == some (.inn, .inn)) (fun f h => by simpa using h)
+    (by decide +kernel))
+example : ∃ e, loadFull { doc := variant (gateV .inn) .inn [yEq] [] [k1, k2], udefs := [mVdef] } = .error e :=
+  fault_rejected_schema_variable _ (by decide +kernel)
+/-- no direction: gate.v without public interface -/
+example : ∃ e, Load.load (variant (gateV .none) .out [yEq] [] [k1, k2]) = .error e :=
+  fault_rejected_no_direction _ (connHas_of_b (fun f => match f with
+      | some (a, b) => a == .none || b == .none
+      | none => false)
+    (fun f h => by
+      match f, h with
+      | some (a, b), h => exact ⟨a, b, rfl, by simpa using h⟩)
+    (by decide +kernel))
+/-- non-adjacent: gate connected to its grandparent membrane (in either attribute order) -/
+example : ∃ e, Load.load (variant (gateV .inn) .out [yEq] [] [⟨"gate", "v", "membrane", "V"⟩, k2]) = .error e :=
+  fault_rejected_non_adjacent _ (connHas_of_b (fun f => f == none) (fun f h => by simpa using h) (by decide +kernel))
+example : ∃ e, Load.load (variant (gateV .inn) .out [yEq] [] [⟨"membrane", "V", "gate", "v"⟩, k2]) = .error e :=
+  fault_rejected_non_adjacent _ (connHas_of_b (fun f => f == none) (fun f h => by simpa using h) (by decide +kernel))
+/-- incompatible units: gate.v in seconds, connected to channel.V in volts -/
+example : ∃ e, Load.load (variant (gateV .inn "second") .out [yEq] [] [k1, k2]) = .error e :=
+  fault_rejected_incompatible_units _ (variant_units (P := fun reg ust => IncompatibleUnits reg ust _)
+    ⟨k1, by simp [variant], not_ok_of (by decide +kernel), not_ok_of (by decide +kernel)⟩)
+/-- two sources: the same `<map_variables>` written twice -/
+example : ∃ e, Load.load (variant (gateV .inn) .out [yEq] [] [k1, k2, k1]) = .error e :=
+  fault_rejected_two_sources _ (variant_units (P := fun _ ust => TwoSources ust _)
+    ⟨0, 2, by decide, k1, k1, rfl, rfl, ("channel", "V"), ("channel", "V"), ("gate", "v"),
+      by decide +kernel, by decide +kernel⟩)
+/-- defined twice directly: gate has two equations for y -/
+example : ∃ e, Load.load (variant (gateV .inn) .out [yEq, yEq] [] [k1, k2]) = .error e :=
+  fault_rejected_defined_twice_direct _ (by decide +kernel)
+/-- defined twice via the connection: channel.V (fed by membrane.V, which has an equation) gets an equation too -/
+example : ∃ e, Load.load (variant (gateV .inn) .out [yEq] [⟨.var "V", .num 3 "volt"⟩] [k1, k2]) = .error e :=
+  fault_rejected_defined_twice_connected _ (by decide +kernel)
+/-- initial value and equation: y = 1.5 initially and y = v + 1 mV -/
+example : ∃ e, Load.load { relayDoc with comps := [
+      ⟨"gate", [gateV .inn, ⟨"y", "mV", .none, .none, some (3/2), none⟩], [yEq]⟩,
+      ⟨"channel", [⟨"V", "volt", .inn, .out, none, none⟩], []⟩,
+      ⟨"membrane", [⟨"V", "mV", .none, .out, none, none⟩], [⟨.var "V", .num 2 "mV"⟩]⟩] } = .error e :=
+  fault_rejected_init_and_equation_partial _ (by unfold NoOde; decide +kernel)
+    ⟨_, List.mem_cons_self, yEq, List.mem_cons_self, "y", rfl, ⟨"y", "mV", .none, .none, some (3/2), none⟩,
+      by decide +kernel, rfl, by decide, by decide⟩
+/-- undefined identifier -/
+example : ∃ e, Load.load (variant (gateV .inn) .out [⟨.var "y", .add (.var "nosuchvar") (.num 1 "mV")⟩] [] [k1, k2])
+    = .error e := fault_rejected_undefined_identifier _ (by decide +kernel)
+/-- undefined unit, on a variable and on a number -/
+example : ∃ e, Load.load (variant (gateV .inn "nosuchunit") .out [yEq] [] [k1, k2]) = .error e :=
+  fault_rejected_undefined_unit _ (by decide +kernel)
+example : ∃ e, Load.load (variant (gateV .inn) .out [⟨.var "y", .add (.var "v") (.num 1 "nosuchunit")⟩] [] [k1, k2])
+    = .error e := fault_rejected_undefined_unit _ (by decide +kernel)
+/-- duplicate component -/
+example : ∃ e, Load.load (variant (gateV .inn) .out [yEq] [] [k1, k2] ["gate", "channel", "gate"]) = .error e :=
+  fault_rejected_duplicate_component _ (by decide +kernel)
+
+/-- two faults at once (an undefined identifier and a missing component): the theorem of either class applies -/
+example : let d := variant (gateV .inn) .out [⟨.var "y", .var "nosuchvar"⟩] [] [k1, k2, ⟨"gate", "y", "nosuchcomp", "V"⟩]
+    UndefinedIdentifier d ∧ MissingComponent d ∧ ∃ e, Load.load d = .error e :=
+  ⟨by decide +kernel, by decide +kernel, fault_rejected_missing_component _ (by decide +kernel)⟩
+
+/-! ### the classes of the full loader, on the valid document plus the feature -/
+
+def relayFd : FaultDoc := { doc := relayDoc, udefs := [mVdef] }
+
+example : ∃ e, loadFull { relayFd with badEqs := [⟨0, 1, .nonvar (.add (.var "y") (.num 1 "mV")), .num 3 "mV"⟩] }
+    = .error e :=
+  fault_rejected_nonvariable_lhs _ ⟨_, List.mem_cons_self, _, rfl⟩
+example : ∃ e, loadFull { relayFd with badEqs := [⟨0, 0, .higher "y" "v" 2, .num 3 "mV"⟩] } = .error e := fault_rejected_higher_order_lhs _ ⟨_, List.mem_cons_self, _, _, _, rfl, by decide⟩
+example : ∃ e, loadFull { doc := relayDoc, udefs := [mVdef], compUnits := [1] } = .error e :=
+  fault_rejected_component_units _ (by simp [HasComponentUnits])
+example : ∃ e, loadFull { doc := relayDoc, udefs := [mVdef], reactions := [2] } = .error e :=
+  fault_rejected_reaction _ (by decide +kernel)
+example : ∃ e, loadFull { doc := relayDoc, udefs := [mVdef, mVdef] } = .error e :=
+  fault_rejected_units_duplicate _ (by decide +kernel)
+example : ∃ e, loadFull { doc := relayDoc, udefs := [mVdef, ⟨"volt", true, []⟩] } = .error e :=
+  fault_rejected_units_builtin_override _ ⟨"volt", true, []⟩ (by simp) (by decide +kernel)
+example : ∃ e, loadFull { doc := relayDoc, udefs := [mVdef, ⟨"degC", false, [{ units := "kelvin", offset := some "273.15" }]⟩] }
+    = .error e :=
+  fault_rejected_units_offset _ ⟨"degC", false, [{ units := "kelvin", offset := some "273.15" }]⟩ (by simp) rfl
+    { units := "kelvin", offset := some "273.15" } (by simp) "273.15" rfl (5463/20) (by decide +kernel) (by decide +kernel)
+example : ∃ e, loadFull { doc := relayDoc, udefs := [⟨"x", false, [{ units := "nowhere" }]⟩, mVdef] } = .error e :=
+  fault_rejected_units_dangling _ ⟨"x", false, [{ units := "nowhere" }]⟩ (by simp) rfl { units := "nowhere" } (by simp)
+    (by decide +kernel) (by decide +kernel)
+example : ∃ e, loadFull { doc := relayDoc, udefs := [mVdef, ⟨"p", false, [{ units := "q" }]⟩, ⟨"q", false, [{ units := "p" }]⟩] }
+    = .error e :=
+  fault_rejected_units_cycle _ [⟨"p", false, [{ units := "q" }]⟩, ⟨"q", false, [{ units := "p" }]⟩] (by decide)
+    (by decide +kernel)
+/-- a fault of the base document is refused by the full loader as well, whatever else the document contains -/
+example : ∃ e, loadFull { doc := variant (gateV .out) .out [yEq] [] [k1, k2], udefs := [mVdef], reactions := [0] }
+    = .error e :=
+  fault_rejected_both_sources_full _ (connHas_of_b (fun f => f == some (.out, .out)) (fun f h => by simpa using h)
+    (by decide +kernel))
+
+end Cellml.Props.C17
